@@ -25,12 +25,63 @@ TY = "rssl_typer"
 REF_ORDER = ["Exact", "Promotion", "PromotionTwice", "IntToBool", "Conversion", "EnumToNumeric"]
 
 
+
+def rule_member_candidates(chk):
+    """The candidate list of a method call is every method of the struct with that name, in every declaration order:
+    Context::get_struct_member_expression read on a model struct (methods f, g, f, h, f declared in several orders, two
+    data members): all overloads of the requested name are returned, none of another name; a data member is found by
+    name with its index; an unknown name is an error."""
+    import interp as I
+    import itertools
+    f = chk.facts
+    fn = f.fn("get_struct_member_expression", "rssl_typer")
+    if not fn:
+        return
+    loc = lambda v: I.Enum("Located", None, {"node": v, "location": I.Opaque("location")})
+    fid = lambda i: I.Enum("FunctionId", None, {"0": i})
+
+    def deref(v):
+        return v.get() if isinstance(v, I.Ref) else v
+    names = {10: "f", 11: "g", 12: "f", 13: "h", 14: "f"}
+    bad = None
+    n = 0
+    orders = list(itertools.permutations([10, 11, 12, 13, 14]))[::7]
+    for order in orders:
+        sd = I.Enum("StructDefinition", None, {"methods": [fid(i) for i in order], "members": [I.Enum("StructMember", None, {"name": "x", "type_id": I.Enum("TypeId", None, {"0": 3})}),
+                                                                                              I.Enum("StructMember", None, {"name": "y", "type_id": I.Enum("TypeId", None, {"0": 4})})]})
+        ctx = I.Enum("Context", None, {"module": I.Enum("Module", None, {"struct_registry": [sd], "function_registry": I.Opaque("function registry")})})
+        ext = {"FunctionRegistry::get_function_name": lambda a: names[deref(a[1]).fields["0"]]}
+        for q, want in (("f", {10, 12, 14}), ("g", {11}), ("h", {13}), ("y", ("var", 1, 4)), ("nope", "err")):
+            try:
+                r = I.Interp(f, max_depth=5, extern=ext).apply(fn, [ctx, I.Enum("StructId", None, {"0": 0}), loc(q)])
+            except I.Unknown as e:
+                if "panicking" in str(e):
+                    bad = bad or "looking up `%s` in a struct whose methods are declared in the order %s aborts (%s)" % (q, [names[i] for i in order], str(e)[:60])
+                    continue
+                chk.unreadable("C16.member/candidates", "Context::get_struct_member_expression on the model struct", str(e)[:100], where(fn))
+                return
+            n += 1
+            got = None
+            if isinstance(r, I.Enum) and r.variant == "Ok":
+                v = r.fields["0"]
+                if v.variant == "Method":
+                    got = {x.fields["0"] for x in v.fields["0"]}
+                elif v.variant == "Variable":
+                    got = ("var", v.fields.get("2"), v.fields["0"].fields["0"])
+            elif isinstance(r, I.Enum) and r.variant == "Err":
+                got = "err"
+            if got != want and not bad:
+                bad = "in a struct whose methods are declared in the order %s, `%s` resolves to %s, must be %s: which overloads take part in the resolution depends on the declaration order" % (
+                    [names[i] for i in order], q, sorted(got) if isinstance(got, set) else got, sorted(want) if isinstance(want, set) else want)
+    chk.ob("C16.member/candidates", bad is None, bad or "%d lookups over %d declaration orders: every overload of the name, and only those" % (n, len(orders)), where(fn), sample={"lookups": n})
+
 def run(chk):
     f = chk.facts
     ip = I.Interp(f)
     rule_rank(chk, ip)
     rule_dimension_total(chk, ip)
     rule_candidates_once(chk)
+    rule_member_candidates(chk)
     fft = chk.anchor("C16.anchor/find_function_type", f.fn("find_function_type", TY), "find_function_type")
     if fft:
         resolved = False
